@@ -119,9 +119,8 @@ def coq_make(targets, timeout=3000):
 
 def coqc_file(path, timeout=1200):
     """Compile a stand-alone file (case file / diagnostics) against the built model."""
-    with Lock('coq-read'):
-        rc, o, dt = sh(['coqc', '-Q', COQ, 'Cose', '-w', '-notation-overridden,-deprecated-hint-without-locality', path],
-                       cwd=os.path.dirname(path), timeout=timeout)
+    rc, o, dt = sh(['coqc', '-Q', COQ, 'Cose', '-w', '-notation-overridden,-deprecated-hint-without-locality', path],
+                   cwd=os.path.dirname(path), timeout=timeout)
     return rc, o, dt
 
 
@@ -389,8 +388,14 @@ def correspond(run, stream, hargs, timeout=1800):
     for f in meta.get('failures', []):
         run.fail(source='oracle:' + stream, **f)
     mism = []
-    for cf in meta.get('case_files', []):
-        rc, out, dt = coqc_file(os.path.join(run.outdir, cf), timeout=timeout)
+    from concurrent.futures import ThreadPoolExecutor
+    cfs = meta.get('case_files', [])
+
+    def one(cf):
+        return cf, coqc_file(os.path.join(run.outdir, cf), timeout=timeout)
+    with ThreadPoolExecutor(max_workers=min(12, max(1, len(cfs)))) as ex:
+        results = list(ex.map(one, cfs))
+    for cf, (rc, out, dt) in results:
         if rc != 0:
             run.broke('correspondence %s: case file %s does not evaluate' % (stream, cf), out[-1500:])
             continue
